@@ -323,4 +323,3 @@ theorem applyModify_rev_swap (hs : List (Hunk α)) (F : Nat) (f : FileSt α) :
   cases phase2 .fwd (hs.map Hunk.swap) (phase1 .fwd F f.content f.deleted (hs.map Hunk.swap) 0 (-1)) f.content 0 <;> rfl
 
 end RQ
--- 
